@@ -105,6 +105,12 @@ def find_guard(fi, subject, declared):
 def guard_contract(fi, subject, declared):
     """The refusal contract of one GUARDS row, decided on must-facts.  -> (refusing raise nodes, unpermitted exits, Facts, text)"""
     F = facts_of(fi)
+    # `subject` names a role; for the primitives' entry points the role is a position (callers pass key and input positionally),
+    # so the parameter may be called anything
+    if fi.name in ("__call__", "Encrypt", "Decrypt") and subject in ("key", "message", "cipher_text"):
+        pos = 1 if subject == "key" else 2
+        if len(fi.params) > pos:
+            subject = fi.params[pos]
     subj = entry(subject)
     if declared.startswith("["):
         values = set(ast.literal_eval(declared))
@@ -371,9 +377,26 @@ def _check_cross(repo, r3):
     enc = repo.func("schemes/CJJ14/Pi2Lev/construction.py", "Pi2Lev._Enc")
     cfg = cfg_of(enc.node)
     g2 = None
+    from ..terms import fn_terms
+    fte = fn_terms(repo, enc)
+    # the array is allocated as [None] * <length>; the refusal compares that very length with 2 ** (8 * index width)
+    alloc = None
+    for n in fte.cfg.nodes:
+        st = n.stmt
+        if n.kind == "stmt" and isinstance(st, ast.Assign) and isinstance(st.value, ast.BinOp) and isinstance(st.value.op, ast.Mult):
+            for lst, cnt in ((st.value.left, st.value.right), (st.value.right, st.value.left)):
+                if isinstance(lst, ast.List) and len(lst.elts) == 1 and isinstance(lst.elts[0], ast.Constant) and lst.elts[0].value is None:
+                    alloc = fte.term(cnt, n.id)
+    W = ("cfg", "param_index_size_of_A")
+    caps = [("binop", "Pow", ("const", 2), ("binop", "Mult", W, ("const", 8))), ("binop", "Pow", ("const", 2), ("binop", "Mult", ("const", 8), W)),
+            ("binop", "Pow", ("const", 256), W), ("binop", "LShift", ("const", 1), ("binop", "Mult", W, ("const", 8))),
+            ("binop", "LShift", ("const", 1), ("binop", "Mult", ("const", 8), W))]
     for st, exc in raising_ifs(enc):
-        t = unparse(st.test)
-        if exc == "ValueError" and "A_len" in t and "**" in t and ">" in t:
+        if exc != "ValueError" or not isinstance(st.test, ast.Compare) or len(st.test.ops) != 1 or alloc is None:
+            continue
+        nid_ = fte.cfg.nodes_of(st)[0]
+        lt, rt = fte.term(st.test.left, nid_), fte.term(st.test.comparators[0], nid_)
+        if (isinstance(st.test.ops[0], ast.Gt) and lt == alloc and rt in caps) or (isinstance(st.test.ops[0], ast.Lt) and rt == alloc and lt in caps):
             g2 = st
     if r3.require(g2 is not None, enc, "Pi2Lev array-size check", "Pi2Lev._Enc no longer refuses an array too long for the configured index width"):
         gn = cfg.nodes_of(g2)
@@ -383,16 +406,9 @@ def _check_cross(repo, r3):
         # strictness: indices run 1..A_len-1, so A_len - 1 < 256**w  <=>  not (A_len > 256**w)
         r3.ok({"check": unparse(g2.test)})
     # 3. Pi2Lev case split ends with else: raise
-    chain_ok = False
-    for st in ast.walk(enc.node):
-        if isinstance(st, ast.If) and "len(database[keyword])" in itext(enc, st.test) and "<=" in itext(enc, st.test):
-            cur = st
-            depth = 0
-            while isinstance(cur, ast.If) and len(cur.orelse) == 1 and isinstance(cur.orelse[0], ast.If):
-                cur = cur.orelse[0]
-                depth += 1
-            if depth >= 2 and cur.orelse and isinstance(cur.orelse[-1], ast.Raise):
-                chain_ok = True
+    from .c01 import pi2lev_case_chain
+    br = pi2lev_case_chain(repo, enc)
+    chain_ok = len(br) >= 3 and bool(br[-1].orelse) and isinstance(br[-1].orelse[-1], ast.Raise)
     r3.require(chain_ok, enc, "Pi2Lev too-large refusal", "Pi2Lev._Enc no longer refuses a posting list that exceeds the two-level capacity")
     # 4. partition block-size check: blocks are produced only when block_size >= entries * identifier_size is established
     pf = repo.func("toolkit/database_utils.py", "partition_identifiers_to_blocks")
